@@ -67,3 +67,13 @@ Example minmax_example :
 Proof. reflexivity. Qed.
 Example table_example : table_10_4 100 50 0 0 (Some 40) None 40 20.
 Proof. eapply row_wmax; cbn; try reflexivity; try lra. Qed.
+
+(* the zero-size work-around (width 0 replaced by 1e-6): the result can leave the [min, max] range.
+   Witness: width 0, height 10, min-width 1e-7, min-height 10: the row "w < min-width" gives height
+   min(1e-7 * 10 / 1e-6, inf) = 1 < min-height. *)
+Lemma minmax_zero_width_refuted :
+  exists w h minw minh maxw maxh,
+    w == 0 /\ 0 < h /\ 0 <= minw /\ 0 <= minh /\ snd (mmar (Some 1) w h minw minh maxw maxh) < minh.
+Proof.
+  exists 0, 10, (1 # 10000000), 10, None, None. repeat split; try (vm_compute; congruence).
+Qed.
